@@ -175,6 +175,76 @@ theorem idxOf_map_inj (f : Nat → Nat) (inj : ∀ a b, f a = f b → a = b) (l 
       have b2 : (f a == f c) = false := by simpa using h2
       simp [List.idxOf_cons, b1, b2, ih]
 
+theorem strLe_totalOrder : TotalOrder strLe where
+  trans := by
+    intro a b c h₁ h₂
+    simp only [strLe, decide_eq_true_eq] at *
+    exact String.le_trans h₁ h₂
+  total := by
+    intro a b
+    simp only [strLe, Bool.or_eq_true, decide_eq_true_eq]
+    exact String.le_total a b
+  antisymm := by
+    intro a b h₁ h₂
+    simp only [strLe, decide_eq_true_eq] at *
+    exact String.le_antisymm h₁ h₂
+
+/-! ### `list(dict.fromkeys(xs))` -/
+
+theorem mem_dedupFirst {α : Type} [DecidableEq α] (l : List α) (x : α) : x ∈ dedupFirst l ↔ x ∈ l := by
+  induction l with
+  | nil => simp [dedupFirst]
+  | cons a t ih =>
+    simp only [dedupFirst, List.mem_cons, List.mem_filter, ih, decide_eq_true_eq]
+    by_cases h : x = a
+    · simp [h]
+    · simp [h]
+
+theorem nodup_dedupFirst {α : Type} [DecidableEq α] (l : List α) : (dedupFirst l).Nodup := by
+  induction l with
+  | nil => simp [dedupFirst]
+  | cons a t ih =>
+    simp only [dedupFirst, List.nodup_cons, List.mem_filter, decide_eq_true_eq]
+    exact ⟨fun h => h.2 rfl, ih.filter _⟩
+
+/-- The de-duplicated list is one of the iteration orders the old `set` could have produced
+(same symbols, each once): the fix only pins the order. -/
+theorem dedupFirst_isSetIter {α : Type} [DecidableEq α] (l : List α) : IsSetIter l (dedupFirst l) :=
+  ⟨nodup_dedupFirst l, mem_dedupFirst l⟩
+
+/-- order of first occurrence: a sublist of the input -/
+theorem dedupFirst_sublist {α : Type} [DecidableEq α] (l : List α) : (dedupFirst l).Sublist l := by
+  induction l with
+  | nil => simp [dedupFirst]
+  | cons a t ih =>
+    simp only [dedupFirst]
+    exact List.Sublist.cons_cons a ((List.filter_sublist).trans ih)
+
+theorem dedupFirst_of_nodup {α : Type} [DecidableEq α] (l : List α) (h : l.Nodup) : dedupFirst l = l := by
+  induction l with
+  | nil => simp [dedupFirst]
+  | cons a t ih =>
+    have ht := (List.nodup_cons.mp h)
+    simp only [dedupFirst, ih ht.2]
+    congr 1
+    apply List.filter_eq_self.mpr
+    intro b hb
+    simp only [decide_eq_true_eq]
+    exact fun e => ht.1 (e ▸ hb)
+
+/-- De-duplication commutes with an injective renaming of the keys. -/
+theorem dedupFirst_map_inj (f : Nat → Nat) (inj : ∀ a b, f a = f b → a = b) (l : List Nat) :
+    dedupFirst (l.map f) = (dedupFirst l).map f := by
+  induction l with
+  | nil => simp [dedupFirst]
+  | cons a t ih =>
+    simp only [List.map_cons, dedupFirst, ih, List.filter_map]
+    congr 2
+    apply List.filter_congr
+    intro b _
+    simp only [Function.comp, decide_eq_decide]
+    exact ⟨fun h e => h (e ▸ rfl), fun h e => h (inj _ _ e)⟩
+
 theorem perm_isEmpty {α : Type} {s₁ s₂ : List α} (h : s₁.Perm s₂) : s₁.isEmpty = s₂.isEmpty := by
   have := h.length_eq
   cases s₁ <;> cases s₂ <;> simp_all
